@@ -148,8 +148,8 @@ def register(db):
                     raises={"ParserError": True}))
     db.add(Contract(
         f"{DD}.bind_dataclass", variant="only-unknown-keys",
-        params={"self": decoder, "data": "dict[str,u:Json]", "clazz": "opaque:type"},
-        requires=["forall(['str', 'u:Json'], lambda k, v: uf('DictDecoder.find_var', 'u:XmlVar|None', "
+        params={"self": decoder, "data": "dict[str,u:Json|None]", "clazz": "opaque:type"},
+        requires=["forall(['str', 'u:Json|None'], lambda k, v: uf('DictDecoder.find_var', 'u:XmlVar|None', "
                   "uf('XmlMeta.get_all_vars', 'seq[u:XmlVar]', uf('XmlContext.build', 'u:XmlMeta', self.context, clazz)), k, v) is None)",
                   "set(data.keys()) != self.context.class_type.derived_keys"],
         ensures=[
